@@ -6,7 +6,7 @@ Trace == ndJsonDeserialize(IOEnv.TRACE)
 
 VARIABLES l, bad
 
-Conjuncts == {"C09_Panic", "C09_Output"}
+Conjuncts == {"C09_Panic", "C09_Output", "C09_ValueReusable"}
 
 Expected(c) ==
     CASE c.api = "T"           -> LET r == ExpandT(c.fmt, EnvOf(c.env)) IN SRes(r.panic, r.out, FALSE)
@@ -21,6 +21,8 @@ Holds(c, r) ==
         o == r.obs
     IN CASE c = "C09_Panic"  -> e.amb \/ (o.panicked = e.panic)
          [] c = "C09_Output" -> e.panic \/ o.panicked \/ o.out = e.out
+         (* a snippet is a value: rendered a second time, into the file of another package, it comes out like a freshly built one *)
+         [] c = "C09_ValueReusable" -> ~o.reuse_judged \/ (o.panicked_again = o.panicked_fresh /\ o.out_again = o.out_fresh)
 
 Failed(r) == {c \in Conjuncts : ~Holds(c, r)}
 
